@@ -119,7 +119,7 @@ def get_strategy_base():
             parts = []
             acc = Decimal(0)
             for i in range(n - 1):
-                q = (tot * D(w[i] / s)).quantize(Decimal(1).scaleb(-qd))
+                q = D(round(float(tot) * (w[i] / s), qd))
                 if q <= 0:
                     return [total]
                 parts.append(q)
